@@ -62,7 +62,7 @@ func argInts(args []object.Object) ([]int64, string) {
 			ints = append(ints, -999999)
 			strs = append(strs, "nil")
 		default:
-			strs = append(strs, a.Inspect())
+			strs = append(strs, safeInspect(a))
 		}
 	}
 	return ints, strings.Join(strs, ",")
@@ -151,7 +151,7 @@ func (o *EvalOutcome) String() string {
 	case o.Result == nil:
 		return "<nil object>"
 	default:
-		return o.Result.Inspect()
+		return safeInspect(o.Result)
 	}
 }
 
